@@ -241,6 +241,22 @@ impl FailSafe {
         // response can complete.
         sessions.remove_pase(expire_sess_id);
 
+        // A fabric that the rollback dropped (a not-yet-committed `AddNOC` one) takes its
+        // operational sessions with it: its local index is free again, and whatever fabric is
+        // added there next must not be reachable over the old fabric's sessions. The session
+        // of the exchange that triggered the expiry is kept, marked expired, so that the
+        // response can still be sent.
+        if let Some(fab_idx) = removed_fabric {
+            let keep_sess_id = expire_sess_id.filter(|id| {
+                sessions
+                    .get(*id)
+                    .map(|sess| sess.get_local_fabric_idx() == fab_idx.get())
+                    .unwrap_or(false)
+            });
+
+            sessions.remove_for_fabric(fab_idx, keep_sess_id);
+        }
+
         self.state = State::Idle;
         self.breadcrumb = 0;
 
